@@ -647,3 +647,84 @@ impl World {
         b
     }
 }
+
+// ---------------------------------------------------------------------------------------------
+// block-level edits that only validation notices (block stays decodable and self-consistent)
+
+pub const BLOCK_INVALIDITY_KINDS: &[&str] = &[
+    "burnfee",
+    "difficulty",
+    "treasury",
+    "graveyard",
+    "unpaid",
+    "signature",
+    "no-tx",
+    "timestamp",
+    "total-fees",
+    "fee-tx",
+    "avg-fee",
+];
+
+/// returns None when the edit does not apply to this block (e.g. no fee transaction)
+pub fn tamper_block(b: &Block, kind: &str, creator: &Key) -> Option<Block> {
+    let mut b = b.clone();
+    match kind {
+        "burnfee" => {
+            b.burnfee += 1;
+            reseal(&mut b, creator, false);
+        }
+        "difficulty" => {
+            b.difficulty += 1;
+            reseal(&mut b, creator, false);
+        }
+        "treasury" => {
+            b.treasury += 1;
+            reseal(&mut b, creator, false);
+        }
+        "graveyard" => {
+            b.graveyard += 1;
+            reseal(&mut b, creator, false);
+        }
+        "unpaid" => {
+            b.previous_block_unpaid += 1;
+            reseal(&mut b, creator, false);
+        }
+        "avg-fee" => {
+            b.avg_total_fees += 1;
+            reseal(&mut b, creator, false);
+        }
+        "total-fees" => {
+            b.total_fees += 1;
+            b.total_fees_new += 1;
+            reseal(&mut b, creator, false);
+        }
+        "signature" => {
+            b.signature[5] ^= 0x40;
+            b.created_hashmap_of_slips_spent_this_block = false;
+            b.slips_spent_this_block.clear();
+            let _ = b.generate();
+        }
+        "no-tx" => {
+            b.transactions.clear();
+            reseal(&mut b, creator, true);
+        }
+        "timestamp" => {
+            // not later than the parent: burn fee / work requirement become unsatisfiable
+            b.timestamp = b.timestamp.saturating_sub(10_000_000);
+            reseal(&mut b, creator, false);
+        }
+        "fee-tx" => {
+            let i = b
+                .transactions
+                .iter()
+                .position(|t| t.transaction_type == TransactionType::Fee)?;
+            if b.transactions[i].to.is_empty() {
+                return None;
+            }
+            b.transactions[i].to[0].amount += 1;
+            reseal(&mut b, creator, true);
+        }
+        _ => return None,
+    }
+    Some(b)
+}
